@@ -146,9 +146,41 @@ def _pure_arg(a) -> bool:
     return is_pure(a) and not any(isinstance(n, ast.Call) and not (isinstance(n.func, ast.Name) and n.func.id in SCALAR_FUNCS) and not (isinstance(n.func, ast.Attribute) and n.func.attr in PURE_METHODS) for n in ast.walk(a))
 
 
+# attribute names that no statement of the analysed program stores outside a constructor (set by Canon from the program):
+# a method call on `a.b` can change what `a.b.c` contains, but not which object `a.b.c` is, when `c` is such a name
+FINAL_ATTRS: set[str] = set()
+_ALIASES: list[dict] = [{}]
+
+
+def _attr_chain(e) -> list[str] | None:
+    """['self', '_links', 'fwd'] for self._links.fwd; None if e is not a pure name/attribute chain"""
+    out = []
+    while isinstance(e, ast.Attribute):
+        out.append(e.attr)
+        e = e.value
+    if not isinstance(e, ast.Name):
+        return None
+    out.append(e.id)
+    return out[::-1]
+
+
+def _survives_content_mutation(v, bases: set[str]) -> bool:
+    ch = _attr_chain(v)
+    if ch is None or len(ch) < 2:
+        return False
+    for i in range(1, len(ch)):
+        if ".".join(ch[:i]) in bases and not all(a in FINAL_ATTRS for a in ch[i:]):
+            return False
+    return True
+
+
 def _store_kill(env: dict, s: ast.AST) -> None:
     """drop bindings whose defining expression may evaluate differently after statement s: it reads an attribute
-    that s stores, or indexes a container that s stores into / calls a non-read-only method on"""
+    that s stores, or indexes a container that s stores into / calls a non-read-only method on.  Locals that are aliases of
+    an attribute chain (function-wide single assignment, _ALIASES) are expanded first on both sides."""
+    aliases = _ALIASES[-1]
+    if aliases and not isinstance(s, (ast.FunctionDef, ast.ClassDef)):
+        s = _Subst(aliases).visit(copy.deepcopy(s))
     attrs, bases, attr_sites = set(), set(), set()
     for n in ast.walk(s):
         if isinstance(n, ast.Attribute) and isinstance(n.ctx, (ast.Store, ast.Del)):
@@ -167,6 +199,10 @@ def _store_kill(env: dict, s: ast.AST) -> None:
         return
     for k in list(env):
         v = env[k]
+        if aliases:
+            v = _Subst(aliases).visit(copy.deepcopy(v))
+        if not attr_sites and _survives_content_mutation(v, bases):
+            continue
         for n in ast.walk(v):
             if isinstance(n, ast.Attribute) and (ast.unparse(n.value), n.attr) in attr_sites:
                 del env[k]
@@ -192,10 +228,29 @@ def forward_subst(stmts: list[ast.stmt], pure_calls=(), keep: set[str] = frozens
     harmless), so nothing is lost when the substitution is partial."""
     stmts = [copy.deepcopy(s) for s in stmts]
     nreads: dict[str, int] = {}
+    nstores: dict[str, int] = {}
     for s_ in stmts:
         for n in ast.walk(s_):
             if isinstance(n, ast.Name) and isinstance(n.ctx, ast.Load):
                 nreads[n.id] = nreads.get(n.id, 0) + 1
+            elif isinstance(n, ast.Name):
+                nstores[n.id] = nstores.get(n.id, 0) + 1
+    # locals bound once to an attribute chain over never-rebound roots: aliases, function-wide
+    aliases = {}
+    for s_ in stmts:
+        for n in ast.walk(s_):
+            if isinstance(n, ast.Assign) and len(n.targets) == 1 and isinstance(n.targets[0], ast.Name) and nstores.get(n.targets[0].id) == 1:
+                ch = _attr_chain(n.value)
+                if ch is not None and len(ch) >= 2 and nstores.get(ch[0], 0) == 0:
+                    aliases[n.targets[0].id] = n.value
+    _ALIASES.append(aliases)
+    try:
+        return _forward_subst(stmts, pure_calls, keep, nreads)
+    finally:
+        _ALIASES.pop()
+
+
+def _forward_subst(stmts, pure_calls, keep, nreads):
 
     def free(e):
         return {n.id for n in ast.walk(e) if isinstance(n, ast.Name)}
